@@ -181,7 +181,7 @@ PROPS = {
         "no_panic": ["promise "],
     },
     "C06": {
-        "modules": ["Capnp.Props.C06", "Capnp.Props.C06Q"],
+        "modules": ["Capnp.Props.C06", "Capnp.Props.C06Q", "Capnp.Props.C06E"],
         "gen": False,
         "confirm": True,
         "rule": "scripts of 4-17 peer messages / application returns on a real rpc.Conn over an in-memory transport whose peer is the script "
@@ -194,13 +194,15 @@ PROPS = {
                 "(Bootstrap, calls on handles resolved or not, pipelined calls on calls returned or not, handles taken from results, releases of "
                 "handles and results, cancellation, Close) and peer Returns (existing / cancelled / unknown questions, struct / capability / exception, "
                 "senderHosted / senderPromise / null / unknown descriptors): messages sent, resolutions and the import table compared with "
-                "Model.RpcQ after every operation (M).",
+                "Model.RpcQ after every operation (M); embargo schedules of 3-14 steps (pipelined calls, the Return naming the caller's own capability, "
+                "direct calls, the peer forwarding the pipelined calls and echoing the Disembargo, in every enabled interleaving): what the local "
+                "capability receives at each step compared with Model.Embargo (M).",
         "trusted": COMMON_TRUSTED + ["each message is handled atomically by the single receive goroutine (true of rpc.go); the model's step is that handling run to quiescence",
                                      "outbound half (Model.RpcQ): one event = one local API call or one Return run to quiescence; descriptors naming the Conn's own exports (loop-back, embargo, Disembargo) are outside it and covered by the oracle stream only",
                                      "local capabilities behave as the harness's (methods 0-5)"],
         "assumptions": ["no transport faults (C09)"],
         "shards": {"quick": 4, "thorough": 16},
-        "no_panic": ["rpc ", "rpcq "],
+        "no_panic": ["rpc ", "rpcq ", "embargo "],
     },
     "C07": {
         "modules": ["Capnp.Props.C07", "Capnp.Props.C07Q"],
@@ -215,7 +217,7 @@ PROPS = {
         "trusted": COMMON_TRUSTED + ["import-side counting is modelled sequentially (Model.RpcQ); the generation race (a reference arriving while the last handle is being released) is covered by the oracle stream and directed scripts only"],
         "assumptions": [],
         "shards": {"quick": 4, "thorough": 16},
-        "no_panic": ["rpc ", "rpcq "],
+        "no_panic": ["rpc ", "rpcq ", "embargo "],
     },
     "C08": {
         "modules": ["Capnp.Props.C08"],
@@ -228,7 +230,7 @@ PROPS = {
         "trusted": COMMON_TRUSTED + ["raw corruptions exercise the decoder glue; only the table logic is modelled"],
         "assumptions": [],
         "shards": {"quick": 4, "thorough": 16},
-        "no_panic": ["rpc ", "rpcq "],
+        "no_panic": ["rpc ", "rpcq ", "embargo "],
     },
     "C09": {
         "modules": ["Capnp.Props.C09", "Capnp.Gen.Locks"],
@@ -246,7 +248,7 @@ PROPS = {
                                      "'bounded time' is observed as deadlines of the harness, not proved"],
         "assumptions": ["goroutine-level interleavings between critical sections are sampled by the stream, not enumerated"],
         "shards": {"quick": 4, "thorough": 16},
-        "no_panic": ["rpc ", "rpcq "],
+        "no_panic": ["rpc ", "rpcq ", "embargo "],
     },
     "C15": {
         "modules": ["Capnp.Props.C15"],
